@@ -25,7 +25,7 @@ def dump(crate, log=None):
     env.pop('RUSTUP_TOOLCHAIN', None)
     # a changing --cfg forces rustc to re-run for this crate only (cargo otherwise prints nothing when fresh)
     nonce = 'verif_mir_nonce_%d' % int(time.time() * 1000)
-    cmd = ['cargo', '+nightly', 'rustc', '--offline', '-p', crate, '--lib', '--target-dir',
+    cmd = ['cargo', '+nightly', 'rustc', '--offline', '-p', package_spec(crate), '--lib', '--target-dir',
            os.path.join(BUILD, 'nightly')] + FEATURES.get(crate, []) + [
         '--', '-Zunpretty=mir', '-C', 'debug-assertions=off', '-C', 'overflow-checks=on', '--cfg', nonce,
         '-A', 'unexpected_cfgs']
@@ -37,6 +37,41 @@ def dump(crate, log=None):
         raise RuntimeError('MIR dump of %s failed (rc=%s):\n%s' % (crate, p.returncode, p.stderr[-4000:]))
     os.replace(tmp, out)
     return out, dt
+
+
+def crate_dir(c):
+    d = os.path.join(REPO, c)
+    return d if os.path.isdir(d) else (registry_src(c) or d)
+
+
+def package_spec(crate):
+    """`-p` argument: workspace members by name; a registry dependency by name@version, the version being the one the
+    workspace crate that uses it is locked to (Cargo.lock), e.g. did_url_parser@0.3.0 as used by identity_did"""
+    if os.path.isdir(os.path.join(REPO, crate)):
+        return crate
+    lock = open(os.path.join(REPO, 'Cargo.lock')).read()
+    vers = re.findall(r'name = "%s"\nversion = "([^"]+)"' % re.escape(crate), lock)
+    if len(vers) <= 1:
+        return crate
+    users = {'did_url_parser': 'identity_did'}
+    u = users.get(crate)
+    if u:
+        m = re.search(r'name = "%s"\nversion = "[^"]+"\n(?:source[^\n]*\n)?(?:checksum[^\n]*\n)?dependencies = \[(.*?)\]' % u, lock, re.S)
+        if m:
+            d = re.search(r'"%s ([^" ]+)' % re.escape(crate), m.group(1))
+            if d:
+                return '%s@%s' % (crate, d.group(1))
+    return '%s@%s' % (crate, sorted(vers)[-1])
+
+
+def registry_src(crate):
+    """source directory of a registry dependency (for struct / enum scanning)"""
+    spec = package_spec(crate)
+    if '@' not in spec:
+        return None
+    name, ver = spec.split('@')
+    c = glob.glob(os.path.expanduser('~/.cargo/registry/src/*/%s-%s' % (name, ver)))
+    return c[0] if c else None
 
 
 def load(crates, fresh=True, src_only=()):
@@ -67,7 +102,7 @@ def scan_structs(crates):
     """struct name -> [field names in declaration order]; None when ambiguous. Also enum struct-variants as Enum::Variant."""
     out = {}
     for c in crates:
-        for path in glob.glob(os.path.join(REPO, c, 'src', '**', '*.rs'), recursive=True):
+        for path in glob.glob(os.path.join(crate_dir(c), 'src', '**', '*.rs'), recursive=True):
             try:
                 src = strip_comments(open(path, encoding='utf-8').read())
             except Exception:
@@ -124,7 +159,7 @@ def scan_enums(crates):
     """enum name -> {variant: discriminant}; None when two enums share a name with different tables"""
     out = {}
     for c in crates:
-        for path in glob.glob(os.path.join(REPO, c, 'src', '**', '*.rs'), recursive=True):
+        for path in glob.glob(os.path.join(crate_dir(c), 'src', '**', '*.rs'), recursive=True):
             try:
                 src = open(path, encoding='utf-8').read()
             except Exception:
